@@ -191,7 +191,7 @@ class C12(Check):
         "a bucket holding >=1 event inside the window and either mutating built-ins ran or the program raised midway; "
         "distinct = (backend, op-kind sequence, program digest)"
     )
-    expected_probes = ["query_ok", "query_raised", "query_raised_after_annotation", "scope_events_checked", "scope_count_checked", "scope_nonempty", "mutating_builtin_ran", "restart_clean", "zero_width_query_window", "reversed_query_window"]
+    expected_probes = ["query_ok", "query_raised", "query_raised_after_annotation", "scope_events_checked", "scope_count_checked", "scope_nonempty", "mutating_builtin_ran", "restart_clean", "zero_width_query_window", "reversed_query_window", "simulated_now_inside_event_range"]
     assumptions = ["the program space is produced by a grammar-based generator (input generation); the simulation contributes the shared mutable store, the abort point and the interleaving with writers"]
     real_components = Check.real_components + ["aw_query parser/interpreter/functions", "aw_transform built-ins"]
 
@@ -227,7 +227,12 @@ class C12(Check):
         weights = {"analyst": 3.0, "importer": 0.8, "editor": 0.6, "operator": 0.1}
         nsteps = r.choice([2, 4, 8, 15, 30] + ([60, 120] if tier == "thorough" else []))
         steps += actors.schedule(rs["sched"], parties, weights, nsteps)
-        return {"backend": backend, "steps": steps, "lat": lat}
+        run = {"backend": backend, "steps": steps, "lat": lat}
+        if r.random() < 0.25:
+            # the simulated present lies in the middle of the stored events: some are "in the future", and query
+            # windows straddle the wall clock
+            run["clock0"] = lat["base"] + lat["step"] * (lat["n"] // 2) + 500
+        return run
 
     MUTATORS = ("categorize(", "tag(", "split_url_events(", "flood(", "simplify_window_titles(", "merge_events_by_keys(")
 
@@ -235,6 +240,8 @@ class C12(Check):
         super().start(world, run)
         self._nt = False
         self._progs = []
+        if "clock0" in run:
+            world.probes["simulated_now_inside_event_range"] += 1
 
     def after(self, world, step, out, i):
         op = step["op"]
